@@ -28,7 +28,7 @@ type c13node struct {
 	chans []*gomavlib.Channel
 }
 
-func c13start(rep *vh.Report, k int, v1 bool) *c13node {
+func c13start(rep *vh.Report, k int, v1 bool, signed bool) *c13node {
 	n := &c13node{}
 	var eps []gomavlib.EndpointConf
 	for i := 0; i < k; i++ {
@@ -41,6 +41,9 @@ func c13start(rep *vh.Report, k int, v1 bool) *c13node {
 		ver = gomavlib.V1
 	}
 	n.node = &gomavlib.Node{Endpoints: eps, Dialect: testDialect, OutVersion: ver, OutSystemID: 21, HeartbeatDisable: true}
+	if signed && !v1 {
+		n.node.OutKey = frame.NewV2Key([]byte("0123456789abcdef0123456789abcdef"))
+	}
 	if err := n.node.Initialize(); err != nil {
 		rep.HarnessError(err.Error())
 		return nil
@@ -138,7 +141,7 @@ func c13stall(rep *vh.Report, seed uint64, idx int, j int) {
 	r := vh.Sub(seed, fmt.Sprintf("c13-stall-%d", idx))
 	k := 2 + r.Intn(3)
 	hookReset(r.U64(), true, false)
-	n := c13start(rep, k, false)
+	n := c13start(rep, k, false, idx%2 == 1)
 	if n == nil {
 		return
 	}
@@ -248,7 +251,7 @@ func c13fail(rep *vh.Report, seed uint64, idx int, class string, pos int) {
 	k := 1 + r.Intn(3)
 	v1 := class == "unencodable:v1-id" || class == "unencodable:v1-frame"
 	hookReset(r.U64(), true, false)
-	n := c13start(rep, k, v1)
+	n := c13start(rep, k, v1, idx%2 == 1)
 	if n == nil {
 		return
 	}
@@ -279,6 +282,9 @@ func c13fail(rep *vh.Report, seed uint64, idx int, class string, pos int) {
 		n.trs[victim].FailWriteAt(n.trs[victim].WriteCalls()+1, errWrite, false)
 	case "werr-sticky":
 		n.trs[victim].FailWriteAt(n.trs[victim].WriteCalls()+1, errWrite, true)
+	case "werr-partial-once":
+		n.trs[victim].FailPartial(true)
+		n.trs[victim].FailWriteAt(n.trs[victim].WriteCalls()+1, errWrite, false)
 	case "unencodable:raw-id":
 		_ = n.node.WriteMessageAll(&message.MessageRaw{ID: 99999, Payload: []byte{1, 2}})
 	case "unencodable:raw-id-to":
@@ -292,7 +298,7 @@ func c13fail(rep *vh.Report, seed uint64, idx int, class string, pos int) {
 	}
 	// later valid writes: flow control on the channels that are not under a transport fault
 	flow := all
-	if class == "werr-once" || class == "werr-sticky" {
+	if class == "werr-once" || class == "werr-sticky" || class == "werr-partial-once" {
 		flow = others
 	}
 	n.writeFlow(rep, r, fam, 100, 100+40, flow, -1, v1)
@@ -329,7 +335,7 @@ func c13fail(rep *vh.Report, seed uint64, idx int, class string, pos int) {
 			if att < want {
 				rep.Violation("what=silent-dead:werr ep=custom", "after a transport write error the channel stays open but no longer even attempts later writes", wit)
 			}
-		case class == "werr-once" && ti == victim:
+		case (class == "werr-once" || class == "werr-partial-once") && ti == victim:
 			// at most the failed item itself may be missing
 			if acc < want-1 {
 				rep.Violation("what=silent-dead:werr ep=custom", "after one failed transport write the channel stays open while discarding later valid writes", wit)
@@ -337,7 +343,7 @@ func c13fail(rep *vh.Report, seed uint64, idx int, class string, pos int) {
 		default:
 			if acc < want {
 				what := "silent-dead:" + class
-				if class == "werr-once" || class == "werr-sticky" {
+				if class == "werr-once" || class == "werr-sticky" || class == "werr-partial-once" {
 					what = "isolation:loss"
 				}
 				rep.Violation("what="+what+" ep=custom", fmt.Sprintf("after the fault (%s) channel %d stays open while later valid writes do not come out", class, ti), wit)
@@ -424,14 +430,14 @@ func TestC13(t *testing.T) {
 	J := vh.Pick(8, 20)
 	job := 0
 	for j := 1; j <= J; j++ {
-		for rep2 := 0; rep2 < vh.Pick(1, 3); rep2++ {
+		for rep2 := 0; rep2 < vh.Pick(1, 12); rep2++ {
 			job++
 			if job%nsh == shard {
 				c13stall(rep, seed, job, j)
 			}
 		}
 	}
-	classes := []string{"werr-once", "werr-sticky", "unencodable:raw-id", "unencodable:raw-id-to", "unencodable:v1-id", "unencodable:v1-frame", "unencodable:frame-raw-empty"}
+	classes := []string{"werr-once", "werr-sticky", "werr-partial-once", "unencodable:raw-id", "unencodable:raw-id-to", "unencodable:v1-id", "unencodable:v1-frame", "unencodable:frame-raw-empty"}
 	positions := []int{0, 1, 2, 5, 9, 17}
 	if vh.Thorough() {
 		positions = positions[:0]
@@ -439,15 +445,17 @@ func TestC13(t *testing.T) {
 			positions = append(positions, p)
 		}
 	}
-	for _, class := range classes {
-		for _, pos := range positions {
-			job++
-			if job%nsh == shard {
-				c13fail(rep, seed, job, class, pos)
+	for rep3 := 0; rep3 < vh.Pick(1, 6); rep3++ { // thorough: every (class, position) with several channel counts / victims / schedules
+		for _, class := range classes {
+			for _, pos := range positions {
+				job++
+				if job%nsh == shard {
+					c13fail(rep, seed, job, class, pos)
+				}
 			}
 		}
 	}
-	for i := 0; i < vh.Pick(3, 30); i++ {
+	for i := 0; i < vh.Pick(3, 120); i++ {
 		job++
 		if job%nsh == shard {
 			c13tcp(rep, seed, job)
